@@ -55,7 +55,7 @@ class C07(Prop):
     pid = 'C07'
     tag = 'body of the Clone impl'
     rule = ('EXHAUSTIVE over a shape list: unit/tuple/named structs with 0-4 fields, enums with 0-4 variants mixing kinds, '
-            'both entry points, Clone alone and together with a derived Copy (either order); every field is a call-recording (Copy) type whose clone and clone_from have distinguishable '
+            'both entry points, Clone alone and together with a derived Copy (either order), with layout attributes (repr(C), repr(packed(4)), repr(align(8)), repr(u8), non_exhaustive); every field is a call-recording (Copy) type whose clone and clone_from have distinguishable '
             'effects; clone on every value, clone_from on all ordered pairs of values incl. every pair of distinct variants; '
             'expected values and call traces computed from the property statement; non-trivial = at least one field')
 
@@ -64,18 +64,28 @@ class C07(Prop):
 
     def cases(self, tier, rng):
         out = []
-        for (is_enum, vs), mode, tnames in itertools.product(shapes(), ('attr', 'derive'),
-                                                             (['Clone'], ['Copy', 'Clone'], ['Clone', 'Copy'])):
+        REPRS = [None, 'repr ( C )', 'repr ( packed ( 4 ) )', 'repr ( C , packed ( 4 ) )', 'repr ( align ( 8 ) )']
+        EREPRS = [None, 'repr ( u8 )', 'repr ( C )', 'non_exhaustive']
+        plans = [(sh, mode, tn, None) for sh, mode, tn in itertools.product(
+            shapes(), ('attr', 'derive'), (['Clone'], ['Copy', 'Clone'], ['Clone', 'Copy']))]
+        # foreign attributes of the item (layout attributes in particular) must not change what clone / clone_from do
+        for k, sh in enumerate(shapes()):
+            for j, rp in enumerate(EREPRS[1:] if sh[0] else REPRS[1:]):
+                if sh[0] and not sh[1]:
+                    continue          # no repr on an empty enum
+                plans.append((sh, 'attr' if (k + j) % 2 else 'derive', ['Clone'], rp))
+        for (is_enum, vs), mode, tnames, rp in plans:
+            ia = [sx.a_other(rp)] if rp else []
             if is_enum:
-                it = sx.enum('E', [sx.variant('V%d' % i, fields_s(k, n)) for i, (k, n) in enumerate(vs)])
+                it = sx.enum('E', [sx.variant('V%d' % i, fields_s(k, n)) for i, (k, n) in enumerate(vs)], attrs=ia)
                 kw = '(enum ('
             else:
-                it = sx.struct('X', fields_s(*vs[0]))
+                it = sx.struct('X', fields_s(*vs[0]), attrs=ia)
                 kw = '(struct ('
             tl = [(t, None) for t in tnames]
             req = sx.inv_attr(sx.dx(tl), it) if mode == 'attr' else sx.inv_derive(
                 kw + sx.a_derive_ex(sx.dx(tl)) + ' ' + it[len(kw):])
-            out.append((req, dict(features=('enum' if is_enum else 'struct', mode, '+'.join(tnames)) + tuple('%s%d' % v for v in vs),
+            out.append((req, dict(features=('enum' if is_enum else 'struct', mode, '+'.join(tnames), rp or 'no-repr') + tuple('%s%d' % v for v in vs),
                                   enum=is_enum, vs=vs, nontrivial=any(n for _, n in vs))))
         return out
 
